@@ -126,6 +126,8 @@ Proof.
     unfold ble_inv. cbn. eapply binv_close. exact H.
   - destruct (b_sess s) eqn:Q; [exact H|]. unfold ble_inv in *. cbn. rewrite Q in H.
     apply binv_reconnect. exact H.
+  - destruct (b_infl s); [exact H|]. unfold ble_inv in *. cbn.
+    apply binv_reconnect. eapply binv_close. exact H.
 Qed.
 
 Lemma ble_inv_init : ble_inv ble_init.
@@ -289,6 +291,9 @@ Proof.
   - (* Reconnect *)
     destruct (b_sess s) eqn:Q; [split; [exact D|apply lfrozen_refl]|].
     split; [|apply lfrozen_refl]. left. cbn. destruct D as [D|[D _]]; lia.
+  - (* LateDisc *)
+    destruct (b_infl s); [split; [exact D|apply lfrozen_refl]|].
+    split; [|apply lfrozen_refl]. left. cbn. destruct D as [D|[D _]]; lia.
 Qed.
 
 Lemma ble_dead_run : forall h s e, ble_dead s e -> lfrozen e (b_log s) (b_log (ble_run s h)).
@@ -370,6 +375,8 @@ Proof.
   - destruct (b_infl s); [apply ble_finv_abort; exact F|].
     intros e H. destruct (F e H) as [D|[D _]]; [left; exact D|right; split; [exact D|reflexivity]].
   - destruct (b_sess s) eqn:Q; [exact F|]. intros e H. left. cbn.
+    destruct (F e H) as [D|[D _]]; lia.
+  - destruct (b_infl s); [exact F|]. intros e H. left. cbn.
     destruct (F e H) as [D|[D _]]; lia.
 Qed.
 
